@@ -47,6 +47,7 @@ for _p in ["C%02d" % i for i in range(1, 20)]:
 PROPS["C02"]["driver"] = "c01"; PROPS["C03"]["driver"] = "c01"
 PROPS["C02"]["harness_v"] = "Harness/C01H.vo"; PROPS["C03"]["harness_v"] = "Harness/C01H.vo"
 PROPS["C07"]["variants"] = [("bin", "verif binary_log")]   # the same driver built a second time with the binary encoder
+PROPS["C06"]["race"] = True
 PROPS["C15"]["race"] = True
 PROPS["C18"]["race"] = True
 for _p in ("C08", "C09", "C17"):
@@ -416,7 +417,8 @@ def main():
                 cmd = [binp, "-prop", pid, "-tier", tier, "-seed", str(seed), "-out", work]
                 if a.replay:
                     cmd += ["-replay", a.replay]
-                env = dict(GOENV, VERIF_DIR=VERIF, VERIF_REPO=REPO, VERIF_WORK=work, VERIF_OVERLAY=os.path.join(WORK, f"overlay_{cfg['driver']}.json"))
+                env = dict(GOENV, VERIF_DIR=VERIF, VERIF_REPO=REPO, VERIF_WORK=work, VERIF_OVERLAY=os.path.join(WORK, f"overlay_{cfg['driver']}.json"),
+                           GORACE=f"log_path={os.path.join(work, 'race')} halt_on_error=0 exitcode=0")
                 rc, out, dt = sh(cmd, cwd=HARNESS, env=env, timeout=cfg["timeout_thorough" if tier == "thorough" else "timeout_quick"])
                 log.append(f"== drv ({dt:.1f}s)\n" + out[-20000:])
                 rp = os.path.join(work, "result.json")
